@@ -168,6 +168,9 @@ class _Simu(_IObserver, _params.Updatable, ABC):
         error = "You must define your own `Get_K_C_M_F` function in your simulation to construct the system matrix, since multiple problem types have been detected. For reference, see the `Get_K_C_M_F` function in `simulations._phasefield`."
         assert len(self.Get_problemTypes()) == 1, error
 
+        if problemType is None:
+            problemType = self.problemType
+
         if self.needUpdate:
             self.__K, self.__C, self.__M, self.__F = self.Assembly(problemType)
             self.Need_Update(False)
